@@ -58,7 +58,20 @@ claimed["C19"] = ("contract-based deductive verification: error-propagation obli
   "Trusted: the classification of an error value as 'plain' (only compared with nil) is syntactic; handled-error table; external libraries.",
   "DESIGN.md §5 C19")
 
+claimed["C10"] = ("contract-based deductive verification: call-site assertions, loop invariants and ghost counters (documents decoded, iteration position) as VCs from go/ssa, discharged by z3/cvc5; frames of unverified callees ('keeps' clauses) discharged on an over-approximated call graph",
+  "Proved for all inputs and all iteration counts: the stream evaluator hands every decoded document to the expression alone in a one-element list, stamped with document = number of documents decoded before it in this file, filename = the file being read, fileIndex = the number of files finished before (Evaluate, EvaluateFiles: files visited in argument order, fileIndex advances by one per finished file, no callee that can be reached writes the evaluator's fields); readDocuments returns every document of a file in decode order with document = its position, filename, fileIndex and EvaluateTogether set; the all-at-once evaluator reads files in argument order with their true index and passes the expression one list ordered by (fileIndex, document); the printer's separator state after each printed result is that result's document and file index (PrintResults loop invariants; F8 found here and fixed). Partial: 'the results equal running the expression on each document separately' rests on the trusted dispatcher contract and on C08/C18 for independence from earlier documents; the decoders' own document counting, -N, empty/comment-only documents and front-matter are not decided.",
+  "Trusted: contracts of Decoder.Init/Decode (fresh node per document, writes no existing node), Printer/Encoder/PrinterWriter interface contracts, dispatcher contract, ParseExpression writes no document/list; rootDocument/rootFileIndex of a result are the stamps of its document root (assumed clause on GetDocument/GetFileIndex); call-graph frames assume no reflection-based method calls; fewer than 2^62 documents/files (machine integers otherwise modelled with wrap-around).",
+  "DESIGN.md §5 C10")
+
 not_yet = {}
+
+def hook_commits():
+    import subprocess
+    out = subprocess.run(["git", "-C", "/repo", "log", "--format=%h %s"], capture_output=True, text=True).stdout
+    hs = [l.split()[0] for l in out.splitlines() if l.split(" ", 1)[1].startswith("verif hook")]
+    hs.reverse()
+    json.dump(hs, open("hook_commits.json", "w"))
+    return hs
 
 def main():
     props = [json.loads(l) for l in open("properties.jsonl")]
@@ -89,7 +102,7 @@ def main():
             "guard": "verif",
             "enable": "go build -tags verif ./... (the guard only adds comment-only contract files zz_verif_contracts.go; yqv loads /repo with -tags=verif)",
             "baseline_off_cmd": "cd /repo && GOFLAGS=-mod=mod GOPROXY=off GOSUMDB=off go test -json -vet=off -count=1 -timeout 25m ./...",
-            "source_commits": json.load(open("hook_commits.json")),
+            "source_commits": hook_commits(),
             "add_only": True,
         },
         "engines": [{"name": "yqv", "path": "/verif/cmd/yqv", "serves_properties": sorted(claimed), "kind_free_text": "contract-based deductive verifier for Go: contracts in //go:build verif comment files, VCs by weakest preconditions over go/ssa, discharged by z3 4.8.12 / z3 5.1.0 / cvc5 1.0"}],
